@@ -86,3 +86,140 @@ func keyDesc(l, rr string) cmpeval.Key { return cmpeval.Key{L: l, R: rr, Desc: t
 func lex(keys ...cmpeval.Key) cmpeval.Func {
 	return func(w *cmpeval.World) bool { return w.LexLess(keys...) }
 }
+
+// kspec names one key of a lexicographic order by a substring of its atom; direction may depend on a flag.
+type kspec struct {
+	Match    string // substring identifying the left atom of this key
+	Desc     bool
+	AscFlag  string // if set: ascending iff the flag containing this substring is true
+	DescFlag string // if set: descending iff the flag containing this substring is true
+}
+
+// cmpLex decides "fn ≡ strict lexicographic order over keys" where the left/right operands are told apart by
+// the markers in sides (e.g. {"$0","$1"} for Less(i,j), {"$r","$0"} for a.less(b)). Atom names are discovered
+// from the function itself; a key that matches no atom (or several) makes the instance undecided.
+func (r *R) cmpLex(rule, pkg, name string, sides [2]string, what string, keys ...kspec) {
+	f := r.fn(rule, pkg, name)
+	if f == nil {
+		return
+	}
+	r.cmpLexSSA(rule, f, sides, what, keys...)
+}
+
+func (r *R) cmpLexSSA(rule string, f *ssa.Function, sides [2]string, what string, keys ...kspec) {
+	construct := ssax.FuncName(f) + " ≡ " + what
+	code := r.codeOf(f)
+	if code == nil {
+		r.Undecide(rule, construct, r.fpos(f), "no syntax/type information for the function")
+		return
+	}
+	probe := cmpeval.Decide(code, func(w *cmpeval.World) bool { return false })
+	if probe.Undecided != "" {
+		r.Undecide(rule, construct, r.fpos(f), "outside the comparison-only fragment: "+probe.Undecided)
+		return
+	}
+	find := func(list []string, sub, must string) (string, bool) {
+		hit := ""
+		for _, a := range list {
+			if strings.Contains(a, sub) && (must == "" || strings.Contains(a, must)) {
+				if hit != "" && hit != a {
+					return "", false
+				}
+				hit = a
+			}
+		}
+		return hit, hit != ""
+	}
+	type rk struct {
+		l, r              string
+		desc              bool
+		ascFlag, descFlag string
+	}
+	var rks []rk
+	for _, k := range keys {
+		l, ok := find(probe.Atoms, k.Match, sides[0])
+		if !ok {
+			// the key may only appear on one side textually when sides share a prefix; fail closed
+			r.Violate(rule, construct, r.fpos(f), fmt.Sprintf("the comparator does not look at key %q (atoms seen: %s)", k.Match, strings.Join(probe.Atoms, ", ")))
+			return
+		}
+		rr := strings.ReplaceAll(l, sides[0], "\x00")
+		rr = strings.ReplaceAll(rr, "\x00", sides[1])
+		x := rk{l: l, r: rr, desc: k.Desc}
+		if k.AscFlag != "" {
+			fl, ok := find(probe.Flags, k.AscFlag, "")
+			if !ok {
+				r.Violate(rule, construct, r.fpos(f), fmt.Sprintf("direction flag %q not consulted (flags seen: %s)", k.AscFlag, strings.Join(probe.Flags, ", ")))
+				return
+			}
+			x.ascFlag = fl
+		}
+		if k.DescFlag != "" {
+			fl, ok := find(probe.Flags, k.DescFlag, "")
+			if !ok {
+				r.Violate(rule, construct, r.fpos(f), fmt.Sprintf("direction flag %q not consulted (flags seen: %s)", k.DescFlag, strings.Join(probe.Flags, ", ")))
+				return
+			}
+			x.descFlag = fl
+		}
+		rks = append(rks, x)
+	}
+	spec := func(w *cmpeval.World) bool {
+		var ks []cmpeval.Key
+		for _, k := range rks {
+			d := k.desc
+			if k.ascFlag != "" {
+				d = !w.Flag(k.ascFlag)
+			}
+			if k.descFlag != "" {
+				d = w.Flag(k.descFlag)
+			}
+			ks = append(ks, cmpeval.Key{L: k.l, R: k.r, Desc: d})
+		}
+		return w.LexLess(ks...)
+	}
+	min := 1
+	for range keys {
+		min *= 3
+	}
+	r.cmpCode(rule, f, construct, code, spec, min)
+}
+
+func (r *R) codeOf(f *ssa.Function) cmpeval.Func {
+	ev := r.evaluator()
+	switch syn := f.Syntax().(type) {
+	case *ast.FuncDecl:
+		_, pk := r.P.FuncDecl(f)
+		if pk == nil {
+			return nil
+		}
+		return ev.FuncOf(syn, pk.TypesInfo)
+	case *ast.FuncLit:
+		outer := f
+		for outer.Parent() != nil {
+			outer = outer.Parent()
+		}
+		_, pk := r.P.FuncDecl(outer)
+		if pk == nil {
+			return nil
+		}
+		return ev.LitOf(syn, pk.TypesInfo)
+	}
+	return nil
+}
+
+func (r *R) cmpCode(rule string, f *ssa.Function, construct string, code, spec cmpeval.Func, minCases int) {
+	res := cmpeval.Decide(code, spec)
+	r.Stat("abstract_cases", res.Cases)
+	r.Stat("comparators", 1)
+	switch {
+	case res.Undecided != "":
+		r.Undecide(rule, construct, r.fpos(f), "outside the comparison-only fragment: "+res.Undecided)
+	case res.Mismatch != "":
+		r.Violate(rule, construct, r.fpos(f), fmt.Sprintf("%d of %d abstract cases disagree with the stated order; e.g. %s", res.Mismatches, res.Cases, res.Mismatch))
+	case res.Cases < minCases:
+		r.Undecide(rule, construct, r.fpos(f), fmt.Sprintf("only %d abstract cases enumerated (expected ≥ %d)", res.Cases, minCases))
+	default:
+		r.Hold(rule, construct, r.fpos(f), fmt.Sprintf("%d abstract cases over atoms {%s} flags {%s}", res.Cases, strings.Join(res.Atoms, ", "), strings.Join(res.Flags, ", ")))
+	}
+}
